@@ -235,8 +235,11 @@ func coerceGrid(r *rng.R, n int) []coerceCase {
 	}
 	// time
 	t0 := time.Date(2024, 5, 6, 7, 8, 9, 0, time.UTC)
-	for _, layout := range []string{"RFC3339", "2006-01-02", "02/01/2006 15:04", time.RFC1123, "20060102", "2006", "150405", "20060102150405"} {
+	// (layouts with a zone element given through Time.Format keep the offset the input was written with: the
+	// documented coercion is time.Parse(layout, input))
+	for _, layout := range []string{"RFC3339", "2006-01-02", "02/01/2006 15:04", time.RFC1123, "20060102", "2006", "150405", "20060102150405", time.RFC3339Nano, "2006-01-02 15:04:05 -0700", time.RFC1123Z} {
 		for _, s := range []string{t0.Format(time.RFC3339), "2024-05-06", "06/05/2024 07:08", t0.Format(time.RFC1123), "2024-05-06T07:08:09+02:00", "zz", "2024-13-40", "2024-05-06T07:08:09.123456789Z",
+			"2024-05-06 07:08:09 +0200", "2024-05-06 07:08:09 -0530", "2024-05-06 07:08:09 +0000", "2024-05-06T07:08:09.5-05:00", t0.In(time.FixedZone("", 3*3600)).Format(time.RFC1123Z),
 			"20240131", "2024", "070809", "20240506070809", "1733007600", "0", "-5", "1e3"} {
 			out = append(out, coerceCase{"time", layout, eng.VStr(s)})
 		}
